@@ -92,17 +92,17 @@ Section ST.
     - apply SS. intros v Rv. apply MS, spop_rep; exact Rv.
     - apply SS. intros v Rv. apply MS, sclear_rep; exact Rv.
     - (* zset write *)
-      pose proof (aupd_recs (RepZ compact clock) (RepZ compact ts) empty_zcoll key (zstep compact ts key c) (m_zset s)
+      pose proof (aupd_recs (RepZ compact clock) (RepZ compact ts) empty_zcoll key (MapZ.zstep compact ts key c) (m_zset s)
                             MZ (RepZ_empty compact clock) (fun v Rv => zstep_rep compact clock ts key c v Rv L) C) as H.
-      destruct (aupd empty_zcoll key (zstep compact ts key c) (m_zset s)) as [m r]. cbn [fst] in *.
+      destruct (aupd empty_zcoll key (MapZ.zstep compact ts key c) (m_zset s)) as [m r]. cbn [fst] in *.
       destruct Rm as [A' B' _ D']. constructor; auto.
     - (* list write *)
-      pose proof (aupd_recs (RepL compact clock) (RepL compact ts) empty_lcoll key (lstep compact ts key c) (m_list s)
+      pose proof (aupd_recs (RepL compact clock) (RepL compact ts) empty_lcoll key (MapL.lstep compact ts key c) (m_list s)
                             ML (RepL_empty compact clock) (fun v Rv => lstep_rep compact clock ts key c v Rv L) D) as H.
-      destruct (aupd empty_lcoll key (lstep compact ts key c) (m_list s)) as [m r]. cbn [fst] in *.
+      destruct (aupd empty_lcoll key (MapL.lstep compact ts key c) (m_list s)) as [m r]. cbn [fst] in *.
       destruct Rm as [A' B' C' _]. constructor; auto.
     - (* kv write: the collections are untouched *)
-      destruct (kstep ts c (m_kv s)) as [m r]. cbn [fst]. destruct Rm as [A' B' C' D']. constructor; auto.
+      destruct (MapK.kstep ts c (m_kv s)) as [m r]. cbn [fst]. destruct Rm as [A' B' C' D']. constructor; auto.
   Qed.
 
   (* strictly increasing timestamps above the clock *)
